@@ -158,11 +158,11 @@ Proof.
 Qed.
 
 (** ** the flat form of a well-formed AST *)
-Definition item_x (fo : float_oracle) (it : item) : Prop := forall is_last, rg_item true fo is_last it = true ->
+Definition item_x (fo : float_oracle) (it : item) : Prop := forall is_last, rg_item true false fo is_last it = true ->
   let l := xlin_item it in
   print_item it = xlins_str l /\ toks_item it = xlins_toks l /\ xb_item it = [it]
   /\ forallb (xlin_ok fo) l = true /\ xbalanced l /\ (is_last = true -> last_plainx l).
-Definition branch_x (fo : float_oracle) (br : branch) : Prop := b_chain br <> [] -> forall tail_ok, rg_branch true fo tail_ok br = true ->
+Definition branch_x (fo : float_oracle) (br : branch) : Prop := b_chain br <> [] -> forall tail_ok, rg_branch true false fo tail_ok br = true ->
   let w := xlin_branch br in
   print_branch br = xlins_str w /\ toks_branch br = xlins_toks w /\ plain_branch br
   /\ forallb (xlin_ok fo) w = true /\ xbalanced w /\ w <> [] /\ (tail_ok = false -> last_plainx w).
@@ -175,7 +175,7 @@ Qed.
 
 (** the chain of a branch (its last node ends the branch) and the top-level chain *)
 Lemma chain_x fo (bch : bool) c : Forall (item_x fo) c -> c <> [] ->
-  (if bch then rg_bchain true fo c else rg_chain true fo c) = true ->
+  (if bch then rg_bchain true false fo c else rg_chain true false fo c) = true ->
   let l := flat_map xlin_item c in
   flat_map print_item c = xlins_str l /\ flat_map toks_item c = xlins_toks l /\ flat_map xb_item c = c
   /\ forallb (xlin_ok fo) l = true /\ xbalanced l /\ xhead_closed l /\ last_plainx l.
@@ -184,13 +184,13 @@ Proof.
   assert (Hhead : forall it, xhead_closed (xlin_item it)) by (intros [n r m b brs]; reflexivity).
   assert (Hnn : forall it, xlin_item it <> []) by (intros [n r m b brs]; discriminate).
   destruct c as [|y c'].
-  - assert (Hrx : rg_item true fo true x = true) by (destruct bch; cbn in Hrg; [now apply andb_prop in Hrg as [? _]|exact Hrg]).
+  - assert (Hrx : rg_item true false fo true x = true) by (destruct bch; cbn in Hrg; [now apply andb_prop in Hrg as [? _]|exact Hrg]).
     destruct (Hx true Hrx) as (P1 & P2 & P3 & P4 & P5 & P6).
     cbn [flat_map]. rewrite !app_nil_r. repeat split; try assumption; [apply Hhead|now apply P6].
-  - assert (Hr2 : rg_item true fo false x = true /\ (if bch then rg_bchain true fo (y :: c') else rg_chain true fo (y :: c')) = true).
+  - assert (Hr2 : rg_item true false fo false x = true /\ (if bch then rg_bchain true false fo (y :: c') else rg_chain true false fo (y :: c')) = true).
     { destruct bch.
-      - change (rg_bchain true fo (x :: y :: c')) with (rg_item true fo false x && rg_bchain true fo (y :: c')) in Hrg. now apply andb_prop in Hrg.
-      - change (rg_chain true fo (x :: y :: c')) with (rg_item true fo false x && rg_chain true fo (y :: c')) in Hrg. now apply andb_prop in Hrg. }
+      - change (rg_bchain true false fo (x :: y :: c')) with (rg_item true false fo false x && rg_bchain true false fo (y :: c')) in Hrg. now apply andb_prop in Hrg.
+      - change (rg_chain true false fo (x :: y :: c')) with (rg_item true false fo false x && rg_chain true false fo (y :: c')) in Hrg. now apply andb_prop in Hrg. }
     destruct Hr2 as [Hrx Hrc].
     destruct (Hx false Hrx) as (P1 & P2 & P3 & P4 & P5 & _).
     destruct (IH ltac:(discriminate) Hrc) as (Q1 & Q2 & Q3 & Q4 & Q5 & Q6 & Q7).
@@ -206,7 +206,7 @@ Proof.
 Qed.
 
 Lemma branches_x fo is_last brs : Forall (branch_x fo) brs ->
-  forallb (fun br => negb (is_nil (b_chain br))) brs = true -> rg_branches true fo is_last brs = true ->
+  forallb (fun br => negb (is_nil (b_chain br))) brs = true -> rg_branches true false fo is_last brs = true ->
   let l := flat_map xlin_branch brs in
   flat_map print_branch brs = xlins_str l /\ flat_map toks_branch brs = xlins_toks l /\ Forall plain_branch brs
   /\ forallb (xlin_ok fo) l = true /\ xbalanced l /\ (brs <> [] -> l <> []) /\ (is_last = true -> brs <> [] -> last_plainx l).
@@ -264,7 +264,7 @@ Proof.
     + intros Ht. apply K4. rewrite Ht in Ha. rewrite orb_false_r in Ha. now destruct a.
 Qed.
 
-Theorem linearize_x_spec fo a : rg_chain true fo a = true -> a <> [] ->
+Theorem linearize_x_spec fo a : rg_chain true false fo a = true -> a <> [] ->
   print_chain a = xlins_str (linearize_x a) /\ toks a = xlins_toks (linearize_x a) /\ expand_branches a = a
   /\ xlins_ok fo (linearize_x a) = true /\ linearize_x a <> [].
 Proof.
@@ -277,12 +277,21 @@ Proof.
   - intros C. rewrite C in P6. exact P6.
 Qed.
 
+(** the same from the recursive side conditions alone *)
+Theorem reader_sim_rg fo braces a : rg_chain true false fo a = true -> a <> [] ->
+  read_cgsmiles fo (print braces a) = denote fo a.
+Proof.
+  intros Hrg Hne. destruct (linearize_x_spec fo a Hrg Hne) as (P1 & P2 & P3 & P4 & P5).
+  unfold print, denote. rewrite P3, P2, P1. destruct braces.
+  - now apply reader_sim_x.
+  - now apply reader_sim_x_nobrace.
+Qed.
 (** ** C04 for the whole grammar without branch multipliers *)
 Theorem reader_sim_grammar fo braces a : wf fo a = true -> has_branch_mult a = false ->
   read_cgsmiles fo (print braces a) = denote fo a.
 Proof.
   intros Hwf Hb.
-  assert (Hrg : rg_chain true fo a = true) by (apply rg_of_wf_gen; [assumption|assumption|discriminate]).
+  assert (Hrg : rg_chain true false fo a = true) by (apply rg_of_wf_gen; [assumption|intros _; assumption|discriminate]).
   assert (Hne : a <> []) by (unfold wf in Hwf; destruct a; [discriminate|discriminate]).
   destruct (linearize_x_spec fo a Hrg Hne) as (P1 & P2 & P3 & P4 & P5).
   unfold print, denote. rewrite P3, P2, P1. destruct braces.
